@@ -112,9 +112,20 @@ def case_ble_write_hangup(p):
 
     ids, vec = p["ids"], p["vec"]
     out = []
-    rig = BleRig(seed=p.get("seed", 0))
+    sub = p.get("pre") == "subscribed"
+    rig = BleRig(seed=p.get("seed", 0), ev_flags=(9, 10) if sub else ())
     try:
         rig.run(rig.pairing.get_characteristics([(1, 9)]))  # (session up, un-gated)
+        if sub:
+            # the pairing holds subscriptions (characteristics that also report by broadcast) and the link was lost since: the write is the
+            # first operation on a new link, and what was subscribed is restored around it
+            rig.run(rig.pairing.subscribe({(1, 9), (1, 10)}))
+            for _ in range(3):
+                if not rig.loop.fire_next_timer():
+                    break
+                rig.loop.run_until_idle()
+            rig.client.peer_disconnect()
+            rig.loop.run_until_idle()
         notes = []
         rig.pairing.dispatcher_connect(lambda ev: notes.append(dict(ev)))
         rig.acc.script = {}
@@ -136,17 +147,36 @@ def case_ble_write_hangup(p):
                 continue
             w = live[0]
             target = ids[p["at"]]
-            if not hung and w[1] == "read" and w[2] == target and len(rig.acc.out.get(target, [])) == 1:
+            if p.get("hang") == "restore":
+                # the accessory answers every item and hangs up at the first request that follows the answer to the last one (whatever the
+                # library sends then: restoring subscriptions, a protocol-configuration read)
+                answered = getattr(rig, "_answered", set())
+                if w[1] == "read" and w[2] in ids and len(rig.acc.out.get(w[2], [])) == 1:
+                    answered.add(w[2])
+                    rig._answered = answered
+                    rig.release()
+                elif not hung and answered >= set(i for i in ids if i in WRITABLE) and w[2] not in ids:
+                    hung = True
+                    rig.release(override="then-drop")
+                else:
+                    rig.release()
+            elif not hung and w[1] == "read" and w[2] == target and len(rig.acc.out.get(target, [])) == 1:
                 hung = True
                 rig.release(override="then-drop")  # the last fragment of the answer for this item, then the link is gone
             else:
                 rig.release()
         rig.gated = False
-        det = {"transport": "ble", "ids": ids, "statuses": list(vec), "hangs_up_after_item": p["at"]}
+        det = {"transport": "ble", "ids": ids, "statuses": list(vec), "hangs_up_after_item": p["at"], "history": p.get("pre"), "hangs_up": p.get("hang", "after-answer"), "hung_up": hung}
         if not task.done():
             task.cancel()
             return [("ble:write-never-completes-after-the-accessory-hung-up", det)]
-        res = task.result() if not task.cancelled() and task.exception() is None else None
+        returned = not task.cancelled() and task.exception() is None
+        res = task.result() if returned else None
+        if returned and not isinstance(res, dict):
+            # the call came back - with nothing: every rejected item goes unreported
+            res = {}
+            if not any(s_ != 0 and i in WRITABLE for i, s_ in zip(ids, vec)):
+                res = None
         told = set()
         for ev in notes:
             told |= {k[1] for k in ev}
@@ -170,6 +200,9 @@ def plan(tier):
         for vec in itertools.product([0, 2, 6], repeat=len(ids)):
             for at in range(len(ids)):
                 work.append(("ble_write_hangup", {"ids": ids, "replies": [None], "vec": list(vec), "at": at}))
+                work.append(("ble_write_hangup", {"ids": ids, "replies": [None], "vec": list(vec), "at": at, "pre": "subscribed"}))
+            work.append(("ble_write_hangup", {"ids": ids, "replies": [None], "vec": list(vec), "at": 0, "pre": "subscribed", "hang": "restore"}))
+            work.append(("ble_write_hangup", {"ids": ids, "replies": [None], "vec": list(vec), "at": 0, "hang": "restore"}))
     for ids in READ_SETS:
         alph = PDU_STATUSES if len(ids) <= (2 if tier == "quick" else 3) else [0, 4, 6]
         vecs = list(itertools.product(alph, repeat=len(ids)))
